@@ -67,7 +67,7 @@ def repro_case(chk, name, model, flags):
 
 
 def run_b(chk):
-    n = chk.pick(40, 500)
+    n = chk.pick(64, 600)
     n_opts = chk.pick(2, 5)
     vg = chk.pick(0, 8)
     chk.map(lambda i: c02.header_case(chk, "b%d" % i if False else i + 100000, CFG, n_opts, vg, None), range(n),
